@@ -4,6 +4,7 @@ package main
 
 import (
 	"bytes"
+	"encoding/json"
 	"fmt"
 	"runtime"
 	"strconv"
@@ -23,6 +24,11 @@ func init() { register("C15", runC15) }
 // then one by-height read per entry - each a scheduled repository operation, so a reorganisation can be placed
 // between any two of them) instead of asking for the tip.
 var c15Loc bool
+
+// c15TipAPI: the reader of the next scheduled scenario asks GET /api/v1/chain/tip/longest (served synchronously on
+// the reader's goroutine, so every repository call the handler makes is a scheduled operation) and records the hash
+// AND the state the answer carries: what the API calls the tip of the longest chain must be labelled LONGEST_CHAIN.
+var c15TipAPI bool
 
 // evCounter is a notification channel that counts ADD events per header hash.
 type evCounter struct {
@@ -221,9 +227,11 @@ func (s *sched) run(nthreads int, prefs []int) []string {
 }
 
 // C15 case input:  <setup history line>;x=t<tid>:<sub>  (one per concurrently submitted header; tid 1..3)
-//                  ;x=readers:<n>;x=prefs:<tid.tid...>;x=trace:<granted ops, '.'-separated>
-//   tid 0 is the reader (calls Headers.GetTip()).  The trace is what really happened and is part of the input:
-//   the model replays it.
+//
+//	               ;x=readers:<n>;x=prefs:<tid.tid...>;x=trace:<granted ops, '.'-separated>
+//	tid 0 is the reader (calls Headers.GetTip()).  The trace is what really happened and is part of the input:
+//	the model replays it.
+//
 // obs: <outcome per submitter tid>|<tips seen by the reader, in order>|<final rows>
 func runC15(c *Ctx) error {
 	sc := newSched()
@@ -281,6 +289,27 @@ func runC15(c *Ctx) error {
 				defer wg.Done()
 				sc.register(0)
 				for j := 0; j < nreads; j++ {
+					if c15TipAPI {
+						code, body := s.Do("GET", "/api/v1/chain/tip/longest", "", nil)
+						var t struct {
+							Header struct {
+								Hash string `json:"hash"`
+							} `json:"header"`
+							State string `json:"state"`
+						}
+						switch {
+						case code != 200 || json.Unmarshal([]byte(body), &t) != nil || t.Header.Hash == "":
+							tips = append(tips, -2)
+							locs = append(locs, fmt.Sprintf("E%d", code))
+						case t.State != "LONGEST_CHAIN":
+							tips = append(tips, m.ID(t.Header.Hash))
+							locs = append(locs, "tip-labelled-"+t.State)
+						default:
+							tips = append(tips, m.ID(t.Header.Hash))
+							locs = append(locs, "ok")
+						}
+						continue
+					}
 					if c15Loc {
 						res, first := func() (r string, first int) {
 							defer func() {
@@ -393,6 +422,9 @@ func runC15(c *Ctx) error {
 			// realised results of the reader's locator builds (judged by the oracle: each must be "ok")
 			h.X = append(h.X, "locs:"+strings.Join(locs, "/"))
 		}
+		if c15TipAPI {
+			h.X = append(h.X, "apitips:"+strings.Join(locs, "/"))
+		}
 		if len(caIDs) > 0 {
 			cs := make([]string, len(caIDs))
 			for i, id := range caIDs {
@@ -447,6 +479,8 @@ func runC15(c *Ctx) error {
 				}
 			case strings.HasPrefix(x, "locs:"):
 				c15Loc = true
+			case strings.HasPrefix(x, "apitips:"):
+				c15TipAPI = true
 			case strings.HasPrefix(x, "ca:"):
 				for _, t := range strings.Split(x[3:], ".") {
 					if v, err := strconv.Atoi(t); err == nil {
@@ -579,6 +613,25 @@ func runC15(c *Ctx) error {
 			}
 		}
 		c15Loc = false
+		// the same placements with the reader asking the API for the tip of the longest chain
+		c15TipAPI = true
+		for k := 1; k <= 2; k++ {
+			for j := 0; j <= 12; j++ {
+				pat := []int{}
+				for x := 0; x < k; x++ {
+					pat = append(pat, 0)
+				}
+				for x := 0; x < j; x++ {
+					pat = append(pat, 1)
+				}
+				pat = append(pat, 0, 0, 0, 0, 0, 0, 0, 0, 1, 1, 1, 1, 1, 1, 1, 1, 1, 1, 1, 1)
+				if err := do(st, []Sub{mk(11, 4, bitsW8)}, 2, pat, nil, "api-tip-race"); err != nil {
+					c15TipAPI = false
+					return err
+				}
+			}
+		}
+		c15TipAPI = false
 	}
 	// random: 2-3 submitters on random stores, random preference lists
 	for i, n := 0, c.Pick(150, 2500); i < n; i++ {
